@@ -58,6 +58,7 @@ def run(res, tier, seed, replay):
     for cid, ops in cases:
         o = obs.get(cid, {})
         case = dict(id=cid, ops=",".join(ops))
+        if str(o.get("CHILD")).startswith("skipped"): continue
         if o.get("CHILD") != "exit:0" or "RES" not in o:
             res.violation(f"async run died ({o.get('CHILD')})", case, str(o)[:400]); continue
         got = [x for x in o["RES"].split(",") if x]; want = [x for x in M.get(cid, "").split(",") if x]
